@@ -86,3 +86,29 @@ package vgirpc
 //@   ensures [local_refuse] h.server.externalConfig != nil && h.maxExternalizedResponseBytes > 0 && out.dataBatchIdx >= 0 && predicted != 0 &&
 //@       wrap(alreadyUploaded + predicted, "int64") > h.maxExternalizedResponseBytes ==> result != nil
 //@   ensures [disabled] old(h.server.externalConfig == nil || h.maxExternalizedResponseBytes <= 0 || out.dataBatchIdx < 0) ==> result == nil
+
+// ---- the externalization decision (C19, C30): pre-flight prediction and the upload helper use
+// the same rule: a batch is externalised iff storage is configured, it has rows, and its buffer
+// size is at least the threshold. ----
+//
+//@ ghost func bufSize(b arrow.RecordBatch) int
+//@ func batchBufferSize
+//@   property C19, C30
+//@   modifies nothing
+//@   establishes result == bufSize(batch)
+//@   loop 0 invariant 0 <= i
+//@ pure func thr(c *ExternalLocationConfig) int = c.ExternalizeThresholdBytes <= 0 ? 1048576 : c.ExternalizeThresholdBytes
+//@ pure func staysInline(batch arrow.RecordBatch, c *ExternalLocationConfig) bool =
+//@     c == nil || c.Storage == nil || numRows(batch) == 0 || bufSize(batch) < thr(c)
+//@ func (*ExternalLocationConfig).threshold
+//@   property C19, C30
+//@   modifies nothing
+//@   ensures result == thr(c)
+//@ func predictExternalizeBytes
+//@   property C19, C30
+//@   modifies nothing
+//@   ensures [mirror] result == (staysInline(batch, config) ? 0 : bufSize(batch))
+//@ func externalizeBatchCtx
+//@   property C19, C30
+//@   at call serializeBatchAsIPC assert [decision] !staysInline(batch, config)
+//@   ensures [inline] old(staysInline(batch, config)) ==> result0 == batch && result2 == 0 && result3 == nil
